@@ -49,7 +49,7 @@ func fnName(f *ssa.Function) string {
 	if f == nil {
 		return "<nil>"
 	}
-	return shortName(f.String())
+	return aliasFuncName(shortName(f.String()))
 }
 
 func inRepo(f *ssa.Function) bool {
@@ -141,6 +141,7 @@ func Load(dir, goos, goarch string, overlay map[string][]byte) (*Prog, error) {
 	}
 	sort.Slice(P.RepoFuncs, func(i, j int) bool { return fnName(P.RepoFuncs[i]) < fnName(P.RepoFuncs[j]) })
 	progOf[prog] = P
+	resolveRenames(P)
 	return P, nil
 }
 
